@@ -16,7 +16,7 @@ ATTRS = [None, "rel", "abs"]
 def space(tier, seed):
     allc = []
     for f, sr, ss, fl, inv, at, nocd, script, reach in itertools.product(
-            FILES, SETTINGS, SETTINGS, FLAGS, INVS, ATTRS, [False, True], [False, True], ["direct", "dep"]):
+            FILES, SETTINGS, SETTINGS, FLAGS, INVS, ATTRS, [False, True], [False, True], ["direct", "dep", "alias"]):
         if inv == "elsewhere" and fl == "none":
             continue  # no justfile would be found
         if nocd and at is not None:
@@ -75,6 +75,11 @@ def layout(d, c):
         open(os.path.join(d, rel), "w").write(texts[f])
     name = "top" if c["reach"] == "dep" else "t"
     prefix = {"root": "", "imp": "", "sub": "sub::", "subimp": "sub::", "nested": "nested::"}[c["file"]]
+    if c["reach"] == "alias":
+        # an alias declared in the root justfile, possibly of a recipe in a submodule: it runs where the recipe runs
+        open(os.path.join(d, paths["root"]), "a").write("\nalias al := %st\n" % prefix)
+        texts["root"] += "\nalias al := %st\n" % prefix
+        prefix, name = "", "al"
     argv = []
     if c["flags"] in ("jf", "jfwd"):
         argv += ["--justfile", os.path.join(proj, "justfile")]
